@@ -52,7 +52,7 @@ func init() {
 		Assumptions: []string{"operands satisfy Inv (A.1)", archNote, contractNote},
 		LevelText:   "Bounded symbolic model checking of the real FMA (umul at MaxPrec, then Add): the receiver equals roundRef(x*y+u) with truthful accuracy for all values in each cell; IEEE sign of exact zero sums; every special-value triple; independence from receiver aliasing. A separation witness (FMA != Add(Mul)) must be satisfiable so the single-rounding claim is not vacuous.",
 		LevelNote:   trusted + " " + archNote,
-		Timeout:     map[string]time.Duration{"quick": 150 * time.Second, "thorough": 300 * time.Second},
+		Timeout:     map[string]time.Duration{"quick": 300 * time.Second, "thorough": 300 * time.Second},
 	})
 	// ------------------------------------------------------------------ C04
 	Register(&PropDef{
@@ -117,7 +117,7 @@ func init() {
 		Assumptions: []string{"operands satisfy Inv (A.1)", archNote},
 		LevelText:   "Bounded symbolic model checking: for every special-value combination the result form/sign equals the IEEE-754 table written out in the harness, a panic occurs iff the combination is invalid and then has dynamic type ErrNaN with the receiver still satisfying Inv; run-time panics (index, slice, nil, divide) and the library's internal string panics are reachability queries on every explored path.",
 		LevelNote:   trusted + " The executor generates run-time panics from the SSA instruction semantics (bounds, nil, division, type assertion).",
-		Timeout:     map[string]time.Duration{"quick": 150 * time.Second, "thorough": 300 * time.Second},
+		Timeout:     map[string]time.Duration{"quick": 300 * time.Second, "thorough": 300 * time.Second},
 	})
 	// ------------------------------------------------------------------ C08
 	Register(&PropDef{
@@ -160,7 +160,7 @@ func init() {
 		Assumptions: []string{"Inv as in DESIGN A.1; base case: the zero value satisfies Inv", archNote, contractNote},
 		LevelText:   "One inductive step per operation from an arbitrary Inv-state (arbitrary old value, stale buffer contents, any aliasing in the listed classes): the operation either panics as C04 allows or leaves receiver and operands in Inv. One step from an arbitrary valid state covers call sequences of any length; equal values then expose identical digits (lemma H_C08_canon).",
 		LevelNote:   trusted + " " + archNote,
-		Timeout:     map[string]time.Duration{"quick": 150 * time.Second, "thorough": 300 * time.Second},
+		Timeout:     map[string]time.Duration{"quick": 300 * time.Second, "thorough": 300 * time.Second},
 	})
 	// ------------------------------------------------------------------ C09
 	Register(&PropDef{
@@ -199,7 +199,7 @@ func init() {
 		Assumptions: []string{"operands satisfy Inv (A.1)", archNote},
 		LevelText:   "Bounded symbolic model checking with attribute and snapshot obligations: prec'/mode' as documented and every operand that is not the receiver bit-identical afterwards, for all values in each cell.",
 		LevelNote:   trusted + " " + archNote,
-		Timeout:     map[string]time.Duration{"quick": 150 * time.Second, "thorough": 300 * time.Second},
+		Timeout:     map[string]time.Duration{"quick": 300 * time.Second, "thorough": 300 * time.Second},
 	})
 	// ------------------------------------------------------------------ C10
 	Register(&PropDef{
@@ -255,7 +255,7 @@ func init() {
 		Assumptions: []string{"operands satisfy Inv (A.1); aliased receivers satisfy it as operands", archNote},
 		LevelText:   "Relational property discharged against a common reference: for every aliasing class and every dirty receiver state in the bound the result equals the reference value computed from the operand values captured before the call, so all aliasing classes agree with each other for all values.",
 		LevelNote:   trusted + " " + archNote,
-		Timeout:     map[string]time.Duration{"quick": 150 * time.Second, "thorough": 300 * time.Second},
+		Timeout:     map[string]time.Duration{"quick": 300 * time.Second, "thorough": 300 * time.Second},
 	})
 	// ------------------------------------------------------------------ C14
 	Register(&PropDef{
@@ -302,7 +302,7 @@ func init() {
 		Assumptions: []string{"math/big.Int accessor methods are executed from their SSA bodies; nat.bitLen is replaced by its documented value; (*big.Rat).norm by the identity", archNote},
 		LevelText:   "Bounded symbolic model checking of the integer and rational conversions against exact integer references (truncation toward zero, saturation, accuracy as the sign of the discarded part).",
 		LevelNote:   trusted,
-		Timeout:     map[string]time.Duration{"quick": 150 * time.Second, "thorough": 300 * time.Second},
+		Timeout:     map[string]time.Duration{"quick": 300 * time.Second, "thorough": 300 * time.Second},
 	})
 	// ------------------------------------------------------------------ C17
 	Register(&PropDef{
@@ -334,7 +334,7 @@ func init() {
 		Assumptions: []string{archNote, "binary.BigEndian and dec.bytes/setBytes executed from their SSA bodies"},
 		LevelText:   "Bounded symbolic model checking: GobDecode(GobEncode(x)) reproduces every attribute for all x in the shape bound; decoding a fully symbolic byte string of each length never panics and yields an error or a Decimal satisfying Inv.",
 		LevelNote:   trusted,
-		Timeout:     map[string]time.Duration{"quick": 150 * time.Second, "thorough": 300 * time.Second},
+		Timeout:     map[string]time.Duration{"quick": 300 * time.Second, "thorough": 300 * time.Second},
 	})
 	// ------------------------------------------------------------------ C20
 	Register(&PropDef{
@@ -370,6 +370,6 @@ func init() {
 		Assumptions: []string{"SetBitsExp argument words are below the base, as its contract requires", archNote},
 		LevelText:   "Bounded symbolic model checking against roundRef / exact integer references.",
 		LevelNote:   trusted,
-		Timeout:     map[string]time.Duration{"quick": 150 * time.Second, "thorough": 300 * time.Second},
+		Timeout:     map[string]time.Duration{"quick": 300 * time.Second, "thorough": 300 * time.Second},
 	})
 }
